@@ -135,10 +135,10 @@ pub mod io {
     // bytes stay concrete for CBMC's constant propagation
     macro_rules! rd { ($n:ident, $t:ty, $u:ty, $k:expr) => { fn $n(&mut self) -> Result<$t> where Self: Unpin {
         let mut b = [0u8; $k]; self.read_exact(&mut b)?;
-        let mut v: $u = b[0] as $u; let mut i = 1; while i < $k { v = (v << 8) | (b[i] as $u); i += 1; }
+        let mut v: $u = b[0] as $u; let mut i = 1; while i < $k { v = v.wrapping_shl(8) | (b[i] as $u); i += 1; }
         Ok(v as $t) } } }
     macro_rules! wr { ($n:ident, $t:ty, $u:ty, $k:expr) => { fn $n(&mut self, v: $t) -> Result<()> where Self: Unpin {
-        let u = v as $u; let mut b = [0u8; $k]; let mut i = 0; while i < $k { b[i] = (u >> (8 * ($k - 1 - i))) as u8; i += 1; }
+        let u = v as $u; let mut b = [0u8; $k]; let mut i = 0; while i < $k { b[i] = u.wrapping_shr((8 * ($k - 1 - i)) as u32) as u8; i += 1; }
         self.write_all(&b) } } }
     pub trait AsyncReadExt: AsyncRead {
         fn read_exact(&mut self, out: &mut [u8]) -> Result<usize> where Self: Unpin {
